@@ -35,6 +35,8 @@ pub enum E {
     Not(Box<E>),
     IsNull(bool, Box<E>),
     In(bool, Box<E>),
+    /// x [NOT] IN (y): a list of ONE element, which may itself be a sub-query (a value, not a row source)
+    In1(bool, Box<E>, Box<E>),
     Between(bool, Box<E>, Box<E>, Box<E>),
     LikeEsc(bool, Box<E>),
     Cast(Box<E>),
@@ -171,6 +173,15 @@ pub fn build(e: &E, d: Dialect, ops: &[OpDef], next: &mut usize) -> SimpleExpr {
             let r = build(r, d, ops, next);
             l.binary(ops[*i].oper, r)
         }
+        E::In1(neg, x, y) => {
+            let x = build(x, d, ops, next);
+            let y = build(y, d, ops, next);
+            if *neg {
+                x.is_not_in([y])
+            } else {
+                x.is_in([y])
+            }
+        }
         E::Not(x) => build(x, d, ops, next).not(),
         E::IsNull(neg, x) => {
             let x = build(x, d, ops, next);
@@ -252,6 +263,11 @@ pub fn expected(e: &E, d: Dialect, ops: &[OpDef], next: &mut usize) -> PExpr {
                 PExpr::Bin(ops[*i].tok.into(), b(l), b(r))
             }
         }
+        E::In1(neg, x, y) => {
+            let x = expected(x, d, ops, next);
+            let y = expected(y, d, ops, next);
+            PExpr::In(*neg, b(x), vec![y])
+        }
         E::Not(x) => PExpr::Un("NOT".into(), b(expected(x, d, ops, next))),
         E::IsNull(neg, x) => PExpr::Is(*neg, b(expected(x, d, ops, next)), b(PExpr::Kw("NULL".into()))),
         E::In(neg, x) => {
@@ -282,7 +298,7 @@ fn kids(e: &E) -> Vec<&E> {
     match e {
         E::Leaf | E::Val | E::SubQ | E::Kw => vec![],
         E::Func(x) | E::Coalesce1(x) | E::Not(x) | E::IsNull(_, x) | E::In(_, x) | E::LikeEsc(_, x) | E::Cast(x) | E::AsEnum(x) => vec![x],
-        E::Tuple(a, b) | E::Bin(_, a, b) => vec![a, b],
+        E::Tuple(a, b) | E::Bin(_, a, b) | E::In1(_, a, b) => vec![a, b],
         E::Case(a, b, c) | E::Between(_, a, b, c) => vec![a, b, c],
     }
 }
@@ -290,7 +306,7 @@ fn kids(e: &E) -> Vec<&E> {
 fn is_cmp_like(e: &E, ops: &[OpDef]) -> bool {
     match e {
         E::Bin(i, ..) => matches!(ops[*i].class, Class::Cmp | Class::PgCmp) || ops[*i].like_family,
-        E::IsNull(..) | E::In(..) | E::LikeEsc(..) => true,
+        E::IsNull(..) | E::In(..) | E::In1(..) | E::LikeEsc(..) => true,
         _ => false,
     }
 }
@@ -325,6 +341,7 @@ pub fn show(e: &E, ops: &[OpDef]) -> String {
         E::Not(x) => format!("Not({})", show(x, ops)),
         E::IsNull(n, x) => format!("{}({})", if *n { "IsNotNull" } else { "IsNull" }, show(x, ops)),
         E::In(n, x) => format!("{}({}, [c, c])", if *n { "NotIn" } else { "In" }, show(x, ops)),
+        E::In1(n, x, y) => format!("{}({}, [{}])", if *n { "NotIn" } else { "In" }, show(x, ops), show(y, ops)),
         E::Between(n, x, lo, hi) => format!("{}({}, {}, {})", if *n { "NotBetween" } else { "Between" }, show(x, ops), show(lo, ops), show(hi, ops)),
         E::LikeEsc(n, x) => format!("{}({}, 'p%' ESCAPE '|')", if *n { "NotLike" } else { "Like" }, show(x, ops)),
         E::Cast(x) => format!("CastAs({}, integer)", show(x, ops)),
@@ -437,10 +454,11 @@ pub enum Ctor {
     Coalesce1,
     Tuple,
     Case,
+    In1(bool),
 }
 fn ctor_slots(c: &Ctor) -> usize {
     match c {
-        Ctor::Bin(_) | Ctor::Tuple => 2,
+        Ctor::Bin(_) | Ctor::Tuple | Ctor::In1(_) => 2,
         Ctor::Between(_) | Ctor::Case => 3,
         _ => 1,
     }
@@ -460,6 +478,7 @@ fn ctor_apply(c: &Ctor, mut k: Vec<E>) -> E {
         Ctor::Coalesce1 => E::Coalesce1(p()),
         Ctor::Tuple => E::Tuple(p(), p()),
         Ctor::Case => E::Case(p(), p(), p()),
+        Ctor::In1(n) => E::In1(*n, p(), p()),
     }
 }
 fn ctors(ops: &[OpDef], only: Option<&[usize]>) -> Vec<Ctor> {
@@ -541,6 +560,7 @@ fn reductions(e: &E, ops: &[OpDef]) -> Vec<E> {
             E::AsEnum(_) => E::AsEnum(p()),
             E::Tuple(..) => E::Tuple(p(), p()),
             E::Bin(i, ..) => E::Bin(*i, p(), p()),
+            E::In1(n, ..) => E::In1(*n, p(), p()),
             E::Case(..) => E::Case(p(), p(), p()),
             E::Between(n, ..) => E::Between(*n, p(), p(), p()),
             other => other.clone(),
@@ -563,6 +583,7 @@ fn reductions(e: &E, ops: &[OpDef]) -> Vec<E> {
         }
         E::IsNull(true, x) => out.push(E::IsNull(false, x.clone())),
         E::In(true, x) => out.push(E::In(false, x.clone())),
+        E::In1(true, x, y) => out.push(E::In1(false, x.clone(), y.clone())),
         E::LikeEsc(true, x) => out.push(E::LikeEsc(false, x.clone())),
         E::Between(true, a, b, c) => out.push(E::Between(false, a.clone(), b.clone(), c.clone())),
         _ => {}
@@ -623,7 +644,7 @@ pub fn run(rep: &Arc<Report>) {
         // (iv) every leaf kind in every slot of every 1-node constructor, and under NOT
         let leaf_kinds = [E::Val, E::Func(Box::new(E::Leaf)), E::Tuple(Box::new(E::Leaf), Box::new(E::Leaf)), E::SubQ, E::Case(Box::new(E::Leaf), Box::new(E::Leaf), Box::new(E::Leaf)), E::Kw];
         let mut cs3 = cs.clone();
-        cs3.extend([Ctor::Func, Ctor::Case]);
+        cs3.extend([Ctor::Func, Ctor::Case, Ctor::In1(false), Ctor::In1(true)]);
         for c in &cs3 {
             let k = ctor_slots(c);
             for slot in 0..k {
@@ -722,6 +743,7 @@ fn to_json(e: &E) -> serde_json::Value {
         E::Not(_) => "Not".into(),
         E::IsNull(n, _) => format!("IsNull:{n}"),
         E::In(n, _) => format!("In:{n}"),
+        E::In1(n, ..) => format!("In1:{n}"),
         E::Between(n, ..) => format!("Between:{n}"),
         E::LikeEsc(n, _) => format!("LikeEsc:{n}"),
         E::Cast(_) => "Cast".into(),
@@ -744,6 +766,7 @@ fn from_json(j: &serde_json::Value) -> Option<E> {
         "Not" => ctor_apply(&Ctor::Not, ks),
         "IsNull" => ctor_apply(&Ctor::IsNull(flag), ks),
         "In" => ctor_apply(&Ctor::In(flag), ks),
+        "In1" => ctor_apply(&Ctor::In1(flag), ks),
         "Between" => ctor_apply(&Ctor::Between(flag), ks),
         "LikeEsc" => ctor_apply(&Ctor::LikeEsc(flag), ks),
         "Cast" => ctor_apply(&Ctor::Cast, ks),
